@@ -86,14 +86,17 @@ func main() {
 		for _, k := range sp.Order {
 			f := p.Funcs[k]
 			spec := sp.Funcs[k]
-			if f == nil || len(f.Params) == 0 || f.Synthetic != "" {
+			if f == nil || f.Synthetic != "" {
 				continue
 			}
-			var ns []string
+			var ns, ls []string
 			for _, q := range f.Params {
 				ns = append(ns, q.Name())
 			}
-			fmt.Printf("%s\t%s\t%s\n", spec.File, strings.TrimPrefix(k, spec.Pkg+"."), strings.Join(ns, ", "))
+			for _, d := range sourceLocalsOf(p, f) {
+				ls = append(ls, d.Name+": "+d.Type)
+			}
+			fmt.Printf("%s\t%s\t%s\t%s\n", spec.File, strings.TrimPrefix(k, spec.Pkg+"."), strings.Join(ns, ", "), strings.Join(ls, " ;; "))
 		}
 	case "uncovered":
 		p, sp, err := loadAll("/repo")
